@@ -1135,6 +1135,10 @@ type lcVer struct {
 	touchedHi time.Time // last time the row was rewritten (tagging, transition, latest-flag flips)
 	nonLo     time.Time // became noncurrent in [nonLo, nonHi]; zero while current
 	nonHi     time.Time
+	// newer noncurrent versions of the key that were removed during sweep remSweep, i.e. after the
+	// reconciler may already have listed the key: its decision counted them
+	remSweep int
+	remNewer int
 }
 
 type lcUpload struct {
@@ -1151,6 +1155,14 @@ type lcBucket struct {
 	uploads    []*lcUpload
 	cfg        *storage.BucketLifecycleConfiguration
 	keyTouched map[string]time.Time
+	sweep      int // number of the sweep in progress (0 = none)
+}
+
+func (v *lcVer) removedNewerIn(sweep int) int {
+	if sweep != 0 && v.remSweep == sweep {
+		return v.remNewer
+	}
+	return 0
 }
 
 func (b *lcBucket) current(k string) *lcVer {
@@ -1184,6 +1196,21 @@ func (b *lcBucket) push(v *lcVer) {
 }
 
 // remove deletes version i of key k; a version that becomes current again is "touched".
+// noteRemovalInSweep remembers on every older version of the key that a newer noncurrent
+// version is being removed while sweep number sweep is running.
+func (b *lcBucket) noteRemovalInSweep(k string, i int, sweep int) {
+	vs := b.keys[k]
+	if i < 0 || i >= len(vs)-1 {
+		return // the current version is not a noncurrent one
+	}
+	for _, x := range vs[:i] {
+		if x.remSweep != sweep {
+			x.remSweep, x.remNewer = sweep, 0
+		}
+		x.remNewer++
+	}
+}
+
 func (b *lcBucket) remove(k string, i int, at time.Time) {
 	vs := b.keys[k]
 	wasCurrent := i == len(vs)-1
@@ -1367,7 +1394,9 @@ func (b *lcBucket) noncurrentExpirationDue(v *lcVer, now time.Time, strict bool)
 		}
 		if e.NewerNoncurrentVersions != nil {
 			n := int(*e.NewerNoncurrentVersions)
-			if !strict && b.newerNoncurrent(v, false) < n {
+			// the reconciler decides on the versions it listed: newer noncurrent versions removed since
+			// this sweep started (by its own earlier actions or by a racing client) still count for it
+			if !strict && b.newerNoncurrent(v, false)+v.removedNewerIn(b.sweep) < n {
 				retention = true
 				continue
 			}
@@ -1406,7 +1435,7 @@ func (b *lcBucket) noncurrentTransitionTargets(v *lcVer, now time.Time, strict b
 			}
 			if t.NewerNoncurrentVersions != nil {
 				n := int(*t.NewerNoncurrentVersions)
-				if !strict && b.newerNoncurrent(v, false) < n {
+				if !strict && b.newerNoncurrent(v, false)+v.removedNewerIn(b.sweep) < n {
 					retention = true
 					continue
 				}
@@ -1470,16 +1499,17 @@ func (b *lcBucket) markerRemovalDemanded(v *lcVer) bool {
 }
 
 type lcRun struct {
-	rc      *RunCtx
-	ctx     context.Context
-	w       *world.World
-	st      storage.Storage
-	ts      storage.TransactionalStorage
-	buckets map[string]*lcBucket
-	names   []string
-	race    bool
-	seq     int
-	epoch   time.Time
+	sweeping bool // a reconciler sweep is in progress
+	rc       *RunCtx
+	ctx      context.Context
+	w        *world.World
+	st       storage.Storage
+	ts       storage.TransactionalStorage
+	buckets  map[string]*lcBucket
+	names    []string
+	race     bool
+	seq      int
+	epoch    time.Time
 
 	sweepStart time.Time
 	violMasked string
@@ -1684,6 +1714,7 @@ func (r *lcRun) onDelete(bn_, k string, opts *storage.DeleteObjectOptions, res *
 			r.fail("noncurrent-expiration-not-due", "the reconciler deleted noncurrent version %v of %s/%s at %s (noncurrent since %s) but no enabled rule makes it due; rules: %s", v, bn_, k, r.ts2(now), r.ts2(v.nonLo), lcRulesString(b.cfg, r))
 		}
 	}
+	b.noteRemovalInSweep(k, i, r.sweeps)
 	b.remove(k, i, hi)
 }
 
@@ -2076,6 +2107,9 @@ func (r *lcRun) del(b *lcBucket, k string, version *lcVer) error {
 		switch {
 		case version != nil:
 			i, _ := b.find(k, version.id)
+			if r.sweeping {
+				b.noteRemovalInSweep(k, i, r.sweeps)
+			}
 			b.remove(k, i, hi)
 			r.rc.Logf("@%s delete version %v of %s/%s", r.ts2(lo), version, b.name, k)
 		case b.versioned:
@@ -2510,6 +2544,16 @@ func (r *lcRun) sweep(rec lcReconciler, liveness bool) {
 	t := time.Now()
 	r.sweepStart = t
 	r.sweeps++
+	r.sweeping = true
+	for _, name := range r.names {
+		r.buckets[name].sweep = r.sweeps
+	}
+	defer func() {
+		r.sweeping = false
+		for _, name := range r.names {
+			r.buckets[name].sweep = 0
+		}
+	}()
 	before := r.nActions
 	var exp []lcExpect
 	if liveness {
